@@ -7,7 +7,7 @@ use lexer::T;
 /// If `always_wrap` is false, only wraps when there are namespace separators (::).
 /// Returns true if a PATH node was created.
 pub fn parse_path_inner(p: &mut Parser, always_wrap: bool) -> bool {
-    let current = p.peek();
+    let current = p.current();
     debug_assert!(matches!(current, T![ident] | T![::]));
 
     let has_namespace = matches!(current, T![::]);
